@@ -2,8 +2,8 @@
    Statements only; proofs are in Core/Lifecycle*_proofs.v.
 
    The model (Core/Lifecycle.v) is the code as fixed by the commits ce0c9d5, e732c3e, 3a27dcb,
-   eb0f53d ([cf_fix cf = all_fixed]); the behaviour of the pinned tree is refuted by the
-   witnesses of Core/Lifecycle_refuted.v (last section of this file).
+   eb0f53d and by fixes/C01-qid-before-send.patch ([cf_fix cf = all_fixed]); the behaviour of
+   the pinned tree is refuted by the witnesses of Core/Lifecycle_refuted.v (last section).
 
    Scope of the general theorems (suffix _partial): histories whose requests are send / query /
    search / gethostbyaddr / getnameinfo and their legacy variants, ares_cancel from the
@@ -90,3 +90,10 @@ Theorem C01_pinned_conn_under_read_refuted :
   exists h final k, run (mkcfg without_connread 3) 60 h final = UB k /\ accepted (run (mkcfg all_fixed 3) 60 h final) = true.
 Proof. exists h_followup_fails, f_followup_fails, UseAfterFree. vm_compute. split; reflexivity. Qed.
 Print Assumptions C01_pinned_conn_under_read_refuted.
+
+(* found with this model in the tree that already had the four fixes: ares_send_nolock stores the
+   query id into a host_query that a callback released while ares_send_query was running *)
+Theorem C01_pinned_qid_after_free_refuted :
+  exists h final k, run (mkcfg without_qidearly 4) 60 h final = UB k /\ accepted (run (mkcfg all_fixed 4) 60 h final) = true.
+Proof. exists h_qid_after_free, [], UseAfterFree. vm_compute. split; reflexivity. Qed.
+Print Assumptions C01_pinned_qid_after_free_refuted.
